@@ -69,6 +69,9 @@ var c04Methods = []c04Method{
 	{"Msg", "GET", "/c04/msg", "", "msg", c04Req, c04Outer},
 	{"InnerRaw", "GET", "/c04/innerraw", "", "inner.raw", c04Req, c04Outer},
 	{"Cplx", "GET", "/c04/cplx", "", "", c04Req, c04Cplx},
+	// request and reply of one message type (a codec remembered per message type would be the request's)
+	{"Same", "POST", "/c04/same", "*", "", c04Outer, c04Outer},
+	{"SameSel", "POST", "/c04/samesel", "inner", "inner", c04Outer, c04Outer},
 }
 
 func c04Field(name string, num int32, typ descriptorpb.FieldDescriptorProto_Type, tname string, rep bool) *descriptorpb.FieldDescriptorProto {
